@@ -9,8 +9,8 @@ from .vecgen import Cfg
 
 # which oracle tags (printed by the driver) decide which property; CRASH = sanitizer abort / signal
 OWNED = {
-    "C01": {"C01", "CRASH"},
-    "C02": {"C02", "CRASH"},
+    "C01": {"C01", "CRASH", "ALIGN"},
+    "C02": {"C02", "CRASH", "ALIGN"},
     "C05": {"C05"},
     "C06": {"C06"},
     "C07": {"C07"},
